@@ -149,7 +149,7 @@ def gen_params(draw, max_hosts=12, max_services=5, small=True):
         p["base_host_value"] = draw(st.sampled_from([1, 0, 2, 0.5]))
         p["host_discovery_value"] = draw(st.sampled_from([1, 0, 2, 0.5, 40, 250]))
     if draw(st.booleans()):
-        p["step_limit"] = draw(st.integers(1, 200))
+        p["step_limit"] = draw(st.integers(1, 200)) if draw(st.integers(0, 4)) else draw(st.sampled_from([201, 500, 1500]))
     if draw(st.integers(0, 3)) == 0:
         # custom (larger) address space bounds
         import math
